@@ -131,7 +131,7 @@ def symeig(A: LinearOperator, neig: Optional[int] = None,
         if M is not None:
             M.check()
 
-    if method == "exacteig":
+    if isinstance(method, str) and method.lower() == "exacteig":
         return exacteig(A, neig, mode, M)
     else:
         fwd_options["method"] = method
